@@ -151,10 +151,14 @@ func c06Reentrant(c *Ctx, p *Prog) {
 		c.Undecided(R, "anchor:NewFilter", "", "not found")
 		return
 	}
-	// closures created (transitively) under NewFilter and the functions it calls in benchproc; of those, the ones that
-	// are filter functions: they take a *benchfmt.Result
+	closuresKeepNoState(c, p, R, []*ssa.Function{nf}, 3, "a compiled filter function writes memory it captured (at %s): a result kept between calls — a bit mask reused for the next measurement set — means the Match handed out for one result changes when the same Filter is asked about another")
+}
+
+// closuresKeepNoState: of the closures created (transitively) under roots and the benchproc functions they call, those that
+// take a *benchfmt.Result write nothing they captured, directly or through a pointer-receiver method of a captured object.
+func closuresKeepNoState(c *Ctx, p *Prog, R string, roots []*ssa.Function, floor int, msg string) {
 	var closures []*ssa.Function
-	for _, f := range staticReach([]*ssa.Function{nf}, bprocPkg) {
+	for _, f := range staticReach(roots, bprocPkg) {
 		if f.Parent() == nil {
 			continue
 		}
@@ -168,14 +172,71 @@ func c06Reentrant(c *Ctx, p *Prog) {
 			closures = append(closures, f)
 		}
 	}
+	// bound methods handed out as functions (e.extract): the object bound is the state; the method must not write it
+	boundRecv := map[*ssa.Function]bool{}
+	for _, f := range staticReach(roots, bprocPkg) {
+		eachInstr(f, func(_ *ssa.BasicBlock, in ssa.Instruction) {
+			mc, ok := in.(*ssa.MakeClosure)
+			if !ok {
+				return
+			}
+			w, ok := mc.Fn.(*ssa.Function)
+			if !ok || w.Synthetic == "" {
+				return
+			}
+			mo, ok := w.Object().(*types.Func)
+			if !ok {
+				return
+			}
+			m := p.SSA.FuncValue(mo)
+			if m == nil || m.Blocks == nil || m.Pkg == nil || m.Pkg.Pkg.Path() != bprocPkg {
+				return
+			}
+			for _, prm := range m.Params {
+				if pt, ok := prm.Type().(*types.Pointer); ok && recvName(pt) == "Result" && !boundRecv[m] {
+					boundRecv[m] = true
+					closures = append(closures, m)
+				}
+			}
+		})
+	}
+	isState := func(cl *ssa.Function, v ssa.Value) bool {
+		if rootIsFreeVar(v, 0) {
+			return true
+		}
+		if boundRecv[cl] {
+			// rooted in the receiver
+			a := v
+			for i := 0; i < 8; i++ {
+				switch y := a.(type) {
+				case *ssa.FieldAddr:
+					a = y.X
+					continue
+				case *ssa.IndexAddr:
+					a = y.X
+					continue
+				case *ssa.UnOp:
+					a = y.X
+					continue
+				case *ssa.Slice:
+					a = y.X
+					continue
+				}
+				break
+			}
+			return a == ssa.Value(cl.Params[0])
+		}
+		return false
+	}
 	n := 0
 	for _, cl := range closures {
+		cl := cl
 		n++
 		bad := ""
 		eachInstr(cl, func(_ *ssa.BasicBlock, in ssa.Instruction) {
 			switch x := in.(type) {
 			case *ssa.Store:
-				if rootIsFreeVar(x.Addr, 0) {
+				if isState(cl, x.Addr) {
 					bad = p.pos(x.Pos())
 				}
 			case *ssa.MapUpdate:
@@ -188,7 +249,7 @@ func c06Reentrant(c *Ctx, p *Prog) {
 				if sc == nil || sc.Pkg == nil || sc.Pkg.Pkg.Path() != bprocPkg || sc.Signature.Recv() == nil || len(x.Call.Args) == 0 {
 					return
 				}
-				if !rootIsFreeVar(x.Call.Args[0], 0) {
+				if !isState(cl, x.Call.Args[0]) {
 					return
 				}
 				writes := false
@@ -220,9 +281,9 @@ func c06Reentrant(c *Ctx, p *Prog) {
 				}
 			}
 		})
-		c.Check(bad == "", R, fmt.Sprintf("%s:keeps-no-state", fnName(cl)), p.pos(cl.Pos()), "writes nothing it captured", "a compiled filter function writes memory it captured (at "+bad+"): a result kept between calls — a bit mask reused for the next measurement set — means the Match handed out for one result changes when the same Filter is asked about another")
+		c.Check(bad == "", R, fmt.Sprintf("%s:keeps-no-state", fnName(cl)), p.pos(cl.Pos()), "writes nothing it captured", fmt.Sprintf(msg, bad))
 	}
-	c.Floor(R, "compiled filter functions", n, 3)
+	c.Floor(R, "closures and bound methods taking a result", n, floor)
 }
 
 // rootIsFreeVar: the address or value is rooted (through fields, elements and loads) in a variable captured by the closure.
